@@ -24,3 +24,9 @@ func (s *MonitoredItemService) VerifItemCounter() uint32 { return s.id }
 
 // VerifSetItemCounter sets the monitored item id counter (to reach the wrap).
 func (s *MonitoredItemService) VerifSetItemCounter(v uint32) { s.id = v }
+
+// VerifSubCounter returns the id given to the most recently created subscription.
+func (s *SubscriptionService) VerifSubCounter() uint32 { return s.lastSubID }
+
+// VerifSetSubCounter sets that counter (to reach the wrap).
+func (s *SubscriptionService) VerifSetSubCounter(v uint32) { s.lastSubID = v }
